@@ -24,6 +24,7 @@ class Interp:
         self.env: Dict[str, Any] = {}
         self.mesh = cb.Mesh()
         self.added: List[str] = []  # names in add order
+        self.tried: List[str] = []  # outcomes of try_write steps
         self.mesh_log: List[Dict[str, Any]] = []  # mesh-level declarations so far (for remesh)
         self.trace: List[str] = []
         self.hooks: Dict[str, Any] = {}  # engine callbacks: before_<op> / after_<op>
@@ -331,6 +332,14 @@ class Interp:
 
     def op_write(self, op) -> None:
         self.mesh.write(op["path"], op.get("debug"))
+
+    def op_try_write(self, op) -> None:
+        """a write whose failure the script survives (it is recorded); the script goes on"""
+        try:
+            self.mesh.write(op["path"], op.get("debug"))
+            self.tried.append("ok")
+        except Exception as e:  # noqa: BLE001 - any failure is an outcome of this step
+            self.tried.append("exc:" + type(e).__name__)
 
     def op_grade(self, op) -> None:
         self.mesh.grade()
